@@ -1,6 +1,6 @@
 (* Extraction of the manager tag/converter model shared by C06, C16 and C09.
    ExtrOcamlBasic only; numbers stay positive/N/nat. *)
-Require Import Pk.Tags.
+Require Import Pk.Tags Pk.TagsC16P.
 Require Extraction.
 Require Import ExtrOcamlBasic.
-Extraction "c06_model.ml" init step faithful repaired mkKf mkDef mkIresp elems popcount tget merge_eligible all.
+Extraction "c06_model.ml" init step faithful repaired mkKf mkDef mkIresp elems popcount tget merge_eligible all request answer.
